@@ -127,6 +127,21 @@ def must_sync(cx):
     cx.check(ok, "entries-source", "ready(): rd.entries is a copy of raft_log.unstable_entries()")
 
 
+def _handed_out_entries(cx, glr):
+    """what gen_light_ready hands out as committed entries: the LightReady field itself, or the value it is given
+    (by a field write or in the struct literal) in that function"""
+    from .commit import ctor_sites
+    out = []
+    a = cx.prog.A(glr)
+    for s in cx.prog.writes.get("LightReady.committed_entries", []):
+        if s.fn is glr:
+            out.append(write_value(cx, s))
+    for f, bi, si, st in ctor_sites(cx, "raw_node::LightReady"):
+        if f is glr and "committed_entries" in st["rv"].get("fields", []):
+            out.append(a.expr_operand(st["rv"]["ops"][st["rv"]["fields"].index("committed_entries")], (bi, si)))
+    return out
+
+
 def _obj_fields(cx, fn, adt):
     """Fields of the object returned by fn (built in place)."""
     from ..templates import return_template
@@ -327,7 +342,8 @@ def handoff_bounds(cx):
             continue
         v = write_value(cx, s)
         if s.fn is glr:
-            ok = is_f(v, "Entry.index") and contains(call("~last", fld("LightReady.committed_entries")), v)
+            ho = _handed_out_entries(cx, glr)
+            ok = is_f(v, "Entry.index") and (contains(call("~last", fld("LightReady.committed_entries")), v) or any(contains(call("~last", h), v) for h in ho if h[0] not in ("opaque",)))
             cx.check(ok, key, "commit_since_index := index of the last committed entry handed out (found %s)" % show(v), s)
         elif s.fn is rdf:
             ok = is_f(v, "SnapshotMetadata.index")
@@ -407,7 +423,7 @@ def uncommitted_release(cx):
     cx.check(len(cs) == 1, "call", "gen_light_ready releases the uncommitted size once")
     for c in cs:
         args = call_args(cx, c)
-        cx.check(is_f(args[1], "LightReady.committed_entries"), "arg", "reduce_uncommitted_size is given exactly the committed entries being handed out (found %s)" % show(args[1]), c)
+        cx.check(is_f(args[1], "LightReady.committed_entries") or args[1] in _handed_out_entries(cx, glr), "arg", "reduce_uncommitted_size is given exactly the committed entries being handed out (found %s)" % show(args[1]), c)
 
 
 @obligation("READY.advance_apply_order", ["C07", "C09"], floor=1, kind="order of a defining read",
